@@ -92,6 +92,7 @@ type ContractDB struct {
 	Lemmas map[string]*Lemma
 	Ghosts map[string]*GhostVar
 	Consts map[string]*ConstDef
+	OnAlloc     []*OnAlloc
 	GlobalDecls []*ConstDef // package-level variables whose initial value is obtained by eval
 	EvalConsts  []*ConstDef // evalconst NAME = <Go expr> (evaluated by running the package)
 	Order  []string // lemma order
@@ -105,7 +106,7 @@ func newDB() *ContractDB {
 var subKeywords = map[string]bool{"arith": true, "requires": true, "assumes": true, "allocates": true, "ensures": true, "assigns": true, "pure": true, "inline": true,
 	"trusted": true, "loop": true, "invariant": true, "decreases": true, "unroll": true, "assert": true, "replay": true,
 	"nosafety": true, "abstract": true, "using": true, "let": true, "opaque": true}
-var topKeywords = map[string]bool{"func": true, "spec": true, "lemma": true, "axiom": true, "ghost": true, "const": true, "global": true, "evalconst": true}
+var topKeywords = map[string]bool{"func": true, "spec": true, "lemma": true, "axiom": true, "ghost": true, "const": true, "global": true, "evalconst": true, "onalloc": true}
 
 // collect //@ lines of a file, joined into logical clauses.
 func contractLines(f *ast.File) []string {
@@ -357,6 +358,13 @@ func (db *ContractDB) loadFile(pkg *packages.Package, f *ast.File, fname string)
 				db.Ghosts[fs[2]] = &GhostVar{Name: fs[2], Type: t, Pkg: pkg}
 			} else {
 				db.errf("%s: bad ghost decl", where)
+			}
+		case "onalloc":
+			// onalloc <type> <ghost map> <value>: a freshly allocated object of the type gets this ghost value
+			if len(fs) >= 4 {
+				db.OnAlloc = append(db.OnAlloc, &OnAlloc{Type: fs[1], Ghost: fs[2], Val: db.mustExpr(strings.Join(fs[3:], " "), where), Pkg: pkg})
+			} else {
+				db.errf("%s: bad onalloc", where)
 			}
 		case "global":
 			for _, n := range strings.Split(rest, ",") {
